@@ -7,10 +7,15 @@ LEVEL = "model_checking"
 
 
 def classify(rec, verdict):
-    return {"verdict": verdict, "src": "%s %s" % (rec.get("src_ver", ""), rec["src_kind"]), "dst": "%s %s" % (rec["dst_be"], rec["dst_kind"])}
+    if rec["fn"] == "xser":
+        return {"verdict": verdict, "src": "%s %s" % (rec["be"], rec["kind"]), "dst": "binary serde"}
+    return {"verdict": verdict, "src": "%s %s" % (rec.get("src_ver", ""), rec["src_kind"]), "dst": "%s %s" % (rec["dst_be"], rec["dst_kind"]), "via": rec["fn"]}
 
 
 def corrupt(rec, rng):
+    if rec["fn"] == "xserde" and not rec["ok"] and rec["src_ver"] != rec["dst_ver"] and rng.random() < 0.01:
+        rec["ok"], rec["result"] = True, "ok"
+        return rec
     if rec["fn"] != "xparse":
         return None
     same = rec["src_ver"] == rec["dst_ver"] and rec["src_kind"] == rec["dst_kind"]
@@ -40,6 +45,8 @@ def run(out, tier, seed):
     with open(f) as fh:
         for n, l in enumerate(fh):
             rec = json.loads(l)
+            if rec["fn"] == "xser":
+                continue
             if rec.get("src_ver") != rec["dst_ver"] or rec["src_kind"] != rec["dst_kind"]:
                 nt += 1
             if n % 2111 == 5 and len(out.samples) < 5:
